@@ -50,6 +50,9 @@ def obligations(tier):
                    bounds="classes with constructor / constraint logic of their own (marking definitions, relationships, sightings, indicators, bundles, observed-data, ...) x every ordered pair of up to 8 slots: the first removed or kept, the second removed or one of 9 JSON kinds x parse / constructor x allow_custom"))
     obls.append(CH("reference_scopes_of_any_shape", H, "reference_scopes", t, mode="E1s", functions=["stix2.base._Observable._check_ref", "stix2.parsing.parse_observable"],
                    bounds="18 values for the reference scope of a 2.0 observable (every JSON kind; entries that are type names, objects, dictionaries with / without / with a junk 'type', null) x parse_observable / constructor x 3 referring types"))
+    obls.append(CH("stored_files_of_any_content", H, "stored_file_junk", t, mode="E1s", functions=["stix2.datastore.filesystem._check_object_from_file", "stix2.datastore.filesystem.FileSystemSource.query"],
+                   stubs=["os/io calls of stix2.datastore.filesystem replaced by an in-memory file system (props/fakefs.py)"],
+                   bounds="18 file contents (bundles without / with empty / with junk objects, JSON of every kind, text that is not JSON, the empty file) x 3 places in the store layout x allow_custom x get / all_versions / 3 queries / get with a named version"))
     obls.append(CH("plain_python_subclasses", H, "plain_subclass", t, mode="E1s", functions=F + ["stix2.v21.sro.Relationship._check_object_constraints", "stix2.v21.sro.Sighting._check_object_constraints"],
                    bounds="an empty Python subclass of every buildable registered class (both versions): builds from the base's arguments to the same text, and with each of 43 junk values "
                           "in one argument raises only from the family (no RecursionError from super() through self.__class__)"))
